@@ -496,6 +496,65 @@ func checkC14(c *Case, s *Stats) error {
 			return err
 		}
 	}
+	// history: the SAME object, whose typed getters have just been used, is
+	// loaded with another trie's bytes; the typed getters must follow.
+	if len(c.Pool) > 0 {
+		other := *c.Pool[0]
+		other.Enc = c.Enc
+		om := newModel(&other)
+		stream, err := streamOf(&other)
+		if err != nil {
+			return err
+		}
+		err = guard("Unmarshal into an instance whose typed getters were used", func() error {
+			if e := st.Unmarshal(stream); e != nil {
+				return viol("unmarshal", "Unmarshal of a valid stream failed: %v", e)
+			}
+			for _, x := range append(append([]string{}, om.AllKeys...), m.AllKeys...) {
+				v, found := st.Get(x)
+				var tv int64
+				var tf bool
+				var gv int64
+				switch c.Enc {
+				case "I8":
+					a, f := st.GetI8(x)
+					tv, tf = int64(a), f
+					if found {
+						gv = int64(v.(int8))
+					}
+				case "I16":
+					a, f := st.GetI16(x)
+					tv, tf = int64(a), f
+					if found {
+						gv = int64(v.(int16))
+					}
+				case "I32":
+					a, f := st.GetI32(x)
+					tv, tf = int64(a), f
+					if found {
+						gv = int64(v.(int32))
+					}
+				default:
+					a, f := st.GetI64(x)
+					tv, tf = a, f
+					if found {
+						gv = v.(int64)
+					}
+				}
+				if tf != found || tv != gv {
+					return viol("typed-getter", "after reloading the instance with another trie: Get%s(%s) = (%d,%v) but Get = (%d,%v)", c.Enc, q(x), tv, tf, gv, found)
+				}
+				if i := om.find(x); i >= 0 && (!found || !valEq(v, om.Want[i])) {
+					return viol("typed-getter", "after reload: Get(%s) = (%v,%v), want (%v,true)", q(x), v, found, om.Want[i])
+				}
+			}
+			return nil
+		})
+		if err != nil {
+			return err
+		}
+		s.class("reload_history_checked")
+	}
 	s.calls(2 * (len(qs) + len(m.AllKeys)))
 	s.classN("hits_negative", int64(neg))
 	s.done(c, neg > 0 && m.Dropped > 0, c.Enc+c.Opt.mode())
